@@ -97,7 +97,7 @@ def b01 (b : Bool) : String := if b then "1" else "0"
 def flagStr (a r c : Bool) : String := (if a then "A" else "-") ++ (if r then "R" else "-") ++ (if c then "C" else "-")
 
 def renderObs (o : Obs) : String :=
-  s!"obs alive={b01 o.alive} ah={o.ah} ar={o.ar} stop={b01 o.stop} nh={o.nh} now={o.now}" ++
+  s!"obs alive={b01 o.alive} ah={o.ah} ar={o.ar} stop={b01 o.stop} nh={o.nh} now={o.now} pq={if o.pq.isEmpty then "-" else ",".intercalate (o.pq.map hn)}" ++
   String.join (o.hs.map fun (id, a, r, c) => s!" {hn id}={flagStr a r c}")
 
 def render : Event → List String
